@@ -221,6 +221,88 @@ theorem clearSubregions_inv {s s' : State} (hi : Inv s) (h : clearSubregions s =
     subst h
     exact dropSubs_inv hi
 
+/-- re-pointing protoclusters at a candidate cluster that lists them -/
+theorem step_reparent_inv {s s' : State} {pids : List Nat} {cid : Nat} (hi : Inv s)
+    (h : step s (.reparent pids cid) = .ok s') : Inv s' := by
+  simp only [step] at h
+  split at h
+  · cases h
+  · next c hc =>
+    simp only [bind, Except.bind, pure, Except.pure] at h
+    split at h
+    · cases h
+    · next ps hps =>
+      split at h
+      · cases h
+      · next hall =>
+        split at h
+        · cases h
+        · next par hpar =>
+          simp only [Except.ok.injEq] at h
+          subst h
+          have hcm := findId_some hc
+          have hfa := findAll_ok hps
+          have hnp := nodup_parts hi
+          have hkids : ∀ k ∈ ids ps, k ∈ c.kids := by
+            intro k hk
+            rw [hfa.1] at hk
+            have : (pids.all fun k => c.kids.contains k) = true := by simpa using hall
+            have := List.all_eq_true.1 this k hk
+            simpa using this
+          have hpsid : ∀ k ∈ ids ps, k ∈ ids s.protos := by
+            intro k hk
+            obtain ⟨p, hp, e⟩ := mem_ids.1 hk
+            exact mem_ids.2 ⟨p, hfa.2 p hp, e⟩
+          have hpslt : ∀ k ∈ ids ps, k < s.nextId := by
+            intro k hk
+            obtain ⟨p, hp, e⟩ := mem_ids.1 (hpsid k hk)
+            have := hi.fresh p (by simp [hp])
+            omega
+          have hpar' : ∀ k, ((par.get k).join) = if k ∈ ids ps then some c.id else s.parentOf k := by
+            intro k
+            rw [setParents_eq hpar]
+            exact parentOf_foldl s ps c.id k
+          refine ⟨hi.nodup, hi.fresh, hi.nodupR, hi.freshR, hi.numP, hi.numC, hi.numS, hi.numR, hi.disjointR, hi.kidsCand,
+            hi.kidsReg, ?_, ?_, hi.cdsLink, ?_, ?_, hi.kindC, hi.kindS, hi.kindPool⟩
+          · intro f hf p hp
+            simp only [State.parentOf] at hp
+            rw [hpar'] at hp
+            have : f.id ∉ ids ps := by
+              intro hm
+              apply hnp.2.2.2.2 f.id (hpsid _ hm)
+              simp only [ids_append, List.mem_append] at hf ⊢
+              rcases hf with hf | hf
+              · exact Or.inl (Or.inl (mem_ids.2 ⟨f, hf, rfl⟩))
+              · exact Or.inl (Or.inr (mem_ids.2 ⟨f, hf, rfl⟩))
+            rw [if_neg this] at hp
+            exact hi.parentA f hf p hp
+          · intro f hf c0 hp
+            simp only [State.parentOf] at hp
+            rw [hpar'] at hp
+            by_cases hm : f.id ∈ ids ps
+            · rw [if_pos hm] at hp
+              simp only [Option.some.injEq] at hp
+              exact ⟨c, hcm.1, hp, hkids _ hm⟩
+            · rw [if_neg hm] at hp
+              exact hi.parentP f hf c0 hp
+          · intro k hk
+            simp only [State.parentOf]
+            rw [hpar']
+            have hk' : s.nextId ≤ k := hk
+            have : k ∉ ids ps := fun hm => by have := hpslt k hm; omega
+            rw [if_neg this]
+            exact hi.parentFresh k hk'
+          · intro c' hc'
+            simp only [State.parentOf]
+            rw [hpar']
+            have : c'.id ∉ ids ps := by
+              intro hm
+              apply hnp.2.2.2.2 c'.id (hpsid _ hm)
+              simp only [ids_append, List.mem_append]
+              exact Or.inr (mem_ids.2 ⟨c', hc', rfl⟩)
+            rw [if_neg this]
+            exact hi.poolNoParent c' hc'
+
 /-- every operation keeps the invariant -/
 theorem step_inv {s s' : State} (op : Op) (hi : Inv s) (h : step s op = .ok s') : Inv s' := by
   cases op with
@@ -228,6 +310,7 @@ theorem step_inv {s s' : State} (op : Op) (hi : Inv s) (h : step s op = .ok s') 
   | addSub loc => exact addSubregion_inv hi h
   | mkCand pids => exact step_mkCand_inv hi h
   | addCand id => exact addCandidate_inv hi h
+  | reparent pids cid => exact step_reparent_inv hi h
   | addRegion cs ss =>
     simp only [step, bind, Except.bind] at h
     split at h
